@@ -75,9 +75,12 @@ def plan(tier, seed):
                   "part": "all_padding"})
   # LOBPCG-deflated Newton (needs n >= 6 for one deflated vector)
   for n in ([6] if tier == "quick" else [6, 7]):
-    for pad in [0]:
-      tasks.append({"name": "lobpcg/n%d" % n, "n": n, "pad": pad,
-                    "eps": 1e-6, "rel": True, "method": "lobpcg",
+    for pad, eps_l, rel_l in [(0, 1e-6, True), (0, 1e-3, False),
+                              (2, 1e-3, False)]:
+      tasks.append({"name": "lobpcg/n%d/k%d/e%g%s" % (n, pad, eps_l,
+                                                     "r" if rel_l else "a"),
+                    "n": n, "pad": pad,
+                    "eps": eps_l, "rel": rel_l, "method": "lobpcg",
                     "values": [1e-4, 1e-2, 1.0] if tier == "quick" else
                     [1e-8, 1e-4, 1e-2, 1.0], "seed": seed, "x64": True,
                     "profile": {"x64": True}, "part": "lobpcg",
@@ -230,8 +233,11 @@ def run_task(task):
         else:
           dlo = dhi = eps
       elif method == "lobpcg":
-        dlo = eps * max(mev[i] * (1 - 2.0**-23), 1e-25)
-        dhi = eps * max(mev[i] * (1 + 2.0**-23), 1e-25)
+        if rel:
+          dlo = eps * max(mev[i] * (1 - 2.0**-23), 1e-25)
+          dhi = eps * max(mev[i] * (1 + 2.0**-23), 1e-25)
+        else:           # an absolute ridge is exactly epsilon
+          dlo = dhi = eps
       else:
         f = 10.0 ** (max(retries[i], 1) - 1) if n > 1 else 1.0
         if rel:
